@@ -34,6 +34,9 @@ pub enum FOp {
     HWrite(usize, Vec<u8>),
     HFlush(usize),
     HDrop(usize),
+    /// a writing call addressed to a symlink that points at file 0 (kind: 0 write_all, 1 append_all, 2 write_lines,
+    /// 3 write handle, 4 append handle): whatever it answers, "writing one path never changes another"
+    ViaLink(u8, Vec<u8>),
 }
 
 #[derive(Debug, Clone, Serialize, Deserialize)]
@@ -73,6 +76,8 @@ pub fn check_files(case: &FileCase) -> CaseResult {
         for d in ["d1", "d2"] {
             v.mkdir_p(format!("{}/{}", base, d)).map_err(|e| Failure::new(format!("setup|{}", backend), e.to_string()))?;
         }
+        // a link to file 0 (dangling until that file exists): writing calls addressed to it must leave every file alone
+        let _ = v.symlink(format!("{}/lnk", base), p(0));
         let mut model: BTreeMap<usize, Vec<u8>> = BTreeMap::new();
         // open handles: slot -> (file index, expected content once flushed, handle, settled)
         let mut open: Vec<Option<(usize, Vec<u8>, Box<dyn Write>, bool)>> = vec![None, None, None];
@@ -88,6 +93,7 @@ pub fn check_files(case: &FileCase) -> CaseResult {
                 FOp::CopyFile(i, j) | FOp::Move(i, j) => vec![idx(*i), idx(*j)],
                 FOp::CopyInto(i, d) | FOp::MoveInto(i, d) => vec![idx(*i), into_target(*i, *d)],
                 FOp::HOpen(_, i, _) => vec![idx(*i)],
+                FOp::ViaLink(..) => vec![0],
                 _ => vec![],
             };
             if touches.iter().any(|k| busy(*k, &open)) {
@@ -187,6 +193,23 @@ pub fn check_files(case: &FileCase) -> CaseResult {
                         v.move_p(p(*i), dstp).map_err(|e| e.to_string())
                     }
                 },
+                FOp::ViaLink(kind, d) => {
+                    opname = "write-addressed-to-a-link";
+                    let lnk = format!("{}/lnk", base);
+                    ctx().class("files:write-addressed-to-a-link");
+                    match kind % 5 {
+                        0 => drop(v.write_all(&lnk, d)),
+                        1 => drop(v.append_all(&lnk, d)),
+                        2 => drop(v.write_lines(&lnk, &[String::from_utf8_lossy(d).replace(['\n', '\r'], "_")])),
+                        k => {
+                            if let Ok(mut h) = if k == 3 { v.write(&lnk) } else { v.append(&lnk) } {
+                                let _ = h.write_all(d);
+                                let _ = h.flush();
+                            }
+                        },
+                    }
+                    Ok(())
+                },
                 FOp::Remove(i) => {
                     opname = "remove";
                     model.remove(&idx(*i));
@@ -283,7 +306,7 @@ pub fn check_files(case: &FileCase) -> CaseResult {
                 if got.as_ref() != want {
                     if first_bad.is_none() {
                         let target = match op {
-                            FOp::HWrite(..) | FOp::HFlush(..) | FOp::HDrop(..) | FOp::HOpen(..) => false,
+                            FOp::HWrite(..) | FOp::HFlush(..) | FOp::HDrop(..) | FOp::HOpen(..) | FOp::ViaLink(..) => false,
                             FOp::WriteAll(i, _) | FOp::AppendAll(i, _) | FOp::WriteLines(i, _) | FOp::AppendLine(i, _) | FOp::AppendLines(i, _) | FOp::WriteH(i, ..) | FOp::AppendH(i, ..) | FOp::Remove(i) => idx(*i) == k,
                             _ => true,
                         };
@@ -388,6 +411,7 @@ fn fop() -> impl Strategy<Value = FOp> {
         2 => (i.clone(), i.clone()).prop_map(|(a, b)| FOp::Move(a, b)),
         1 => (i.clone(), 0usize..2).prop_map(|(a, b)| FOp::MoveInto(a, b)),
         1 => i.clone().prop_map(FOp::Remove),
+        1 => (0u8..5, data()).prop_map(|(k, d)| FOp::ViaLink(k, d)),
         2 => (0usize..3, i, any::<bool>()).prop_map(|(s, f, a)| FOp::HOpen(s, f, a)),
         3 => (0usize..3, data()).prop_map(|(s, d)| FOp::HWrite(s, d)),
         1 => (0usize..3).prop_map(FOp::HFlush),
@@ -396,7 +420,7 @@ fn fop() -> impl Strategy<Value = FOp> {
 }
 
 pub fn run(c: &Ctx) {
-    c.set_rule("histories of 1..30 file operations (write_all, append_all, write_lines, append_line, append_lines, write()/append() handles with chunked writes and flushes, copy file->file and into a directory, move_p file->file and into a directory, copies and moves from a missing source (whatever they answer, no file's content may change), remove+recreate; write()/append() handles that stay open across later steps on other files and are flushed/dropped at arbitrary later points) over six file paths in two directories; data: empty, ASCII with newlines, multi-byte UTF-8, invalid UTF-8 / CR / NUL, random bytes, 1-16 KiB and 63-67 KiB blocks, 1-65 KiB of valid text made of 1-4 byte characters at every alignment; lines incl. empty ones and ones carrying a terminator. After EVERY step every path is read back (read handle, read_all, read_lines; on Stdfs also std::fs::read) and compared with a byte-vector model: write replaces, append extends, helpers add one newline per line, untouched files unchanged, copies/moves do not alias; read_lines(write_lines(ls))==ls for proper lines. Both backends. Plus, on Stdfs, every program of length 5/6 over several append writers of one file (two append handles with write+flush, append_all, append_line): old content plus every chunk in call order after every step. Non-trivial = history with >=2 writes/appends to one file and a multi-byte or invalid-UTF-8 payload; distinct by history.");
+    c.set_rule("histories of 1..30 file operations (write_all, append_all, write_lines, append_line, append_lines, write()/append() handles with chunked writes and flushes, copy file->file and into a directory, move_p file->file and into a directory, copies and moves from a missing source (whatever they answer, no file's content may change), remove+recreate, writing calls addressed to a symlink that points at one of the files (whatever they answer, no file's content may change); write()/append() handles that stay open across later steps on other files and are flushed/dropped at arbitrary later points) over six file paths in two directories; data: empty, ASCII with newlines, multi-byte UTF-8, invalid UTF-8 / CR / NUL, random bytes, 1-16 KiB and 63-67 KiB blocks, 1-65 KiB of valid text made of 1-4 byte characters at every alignment; lines incl. empty ones and ones carrying a terminator. After EVERY step every path is read back (read handle, read_all, read_lines; on Stdfs also std::fs::read) and compared with a byte-vector model: write replaces, append extends, helpers add one newline per line, untouched files unchanged, copies/moves do not alias; read_lines(write_lines(ls))==ls for proper lines. Both backends. Plus, on Stdfs, every program of length 5/6 over several append writers of one file (two append handles with write+flush, append_all, append_line): old content plus every chunk in call order after every step. Non-trivial = history with >=2 writes/appends to one file and a multi-byte or invalid-UTF-8 payload; distinct by history.");
     c.assume("append_line(\"\") and write_lines/append_lines whose joined text is empty: no-op or newline form both admitted (deliberately skipped by both backends; outside the statement's round-trip clause)");
     // "an append adds at the end and never alters the existing prefix" with several writers on one Stdfs file
     crate::props::c07::run_append_interleave(c, c.tier.pick(5, 6));
